@@ -377,6 +377,9 @@ func genIncidentWorld(r *rand.Rand) *wWorld {
 		case x == 1:
 			old := auth
 			switchAuth()
+			if r.Intn(3) == 0 { // somebody marks the policy entry itself as skipped: that must change nothing
+				g.addEvent(wEvent{Kind: "ann", Targets: []int{len(g.w.Events) - 1}, Skip: true, Signer: 1})
+			}
 			if r.Intn(2) == 0 {
 				good(old) // the de-authorised principal pushes again
 			} else {
